@@ -109,8 +109,22 @@ pub fn check_case(c: &Case) -> CaseResult {
         Ok(a) => a,
         Err(_) => return r,
     };
-    let cfg = Cfg { preserve_ct: true, ..Cfg::default() };
-    let mut m = match parse(&c.wasm, &cfg) {
+    // how code-transform preservation was switched on: directly, or implied by generate_dwarf(true)
+    // (with or without DWARF in the input: the DWARF sections are appended after everything else,
+    // so every code offset of the input stays what it is)
+    let how = c.cfg.get("how").and_then(|x| x.as_str()).unwrap_or("preserve");
+    let cfg = match how {
+        "dwarf" | "dwarf-input" => Cfg { dwarf: true, ..Cfg::default() },
+        "both" => Cfg { dwarf: true, preserve_ct: true, ..Cfg::default() },
+        _ => Cfg { preserve_ct: true, ..Cfg::default() },
+    };
+    let mut input = c.wasm.clone();
+    if how == "dwarf-input" {
+        for (n, d) in wdwarf::minimal_sections(&c.wasm) {
+            wgen::families::append_custom(&mut input, &n, &d);
+        }
+    }
+    let mut m = match parse(&input, &cfg) {
         Ok(m) => m,
         Err(_) => return r,
     };
@@ -285,9 +299,14 @@ pub fn run(args: &Args) -> i32 {
                 continue;
             }
             cases.push(b.clone().with(json!({"edit": e})));
+            if b.family != "body" && b.family != "fixtures" {
+                for how in ["dwarf", "dwarf-input", "both"] {
+                    cases.push(b.clone().with(json!({"edit": e, "how": how})));
+                }
+            }
         }
     }
-    ev.rule = "every member of body(L)/funcs/leb/locals/fixtures x {unchanged, two instructions inserted at the start of the first function, gc} with preserve_code_transform(true): a spy custom section copies the \
+    ev.rule = "every member of body(L)/funcs/leb/locals/fixtures x {unchanged, two instructions inserted at the start of the first function, gc} with preserve_code_transform(true), and for the generated families also with generate_dwarf(true) (which implies it) with and without DWARF in the input: a spy custom section copies the \
         CodeTransform; every (input offset, output offset) pair must name the first byte of an input operator and the first byte of the corresponding output operator (correspondence from iso; for the insert edit \
         against an expected module built by byte surgery); every surviving operator in exactly one pair; function ranges = code entries incl. size LEB; code_section_start = first byte of the code section contents. \
         non-trivial = walrus renumbered or elided something"
